@@ -2,7 +2,7 @@
   C01 — Symbolic tree integrity. Property theorems only (model: PgModel/Sym*.lean,
   lemmas: PgProofs/Sym*.lean).
 -/
-import PgProofs.SymStepInv
+import PgProofs.SymNoAlias
 namespace Pg.Sym
 
 example : (Forest.empty).wf = true := by decide
@@ -359,31 +359,38 @@ theorem C01_step_scoped (b : Bool) (f : Forest) (n : Bool) (op : Op) (hf : f.ok 
     (stepA { Cfg.patched with scopePartial := some b } f n op).forest.ok = true :=
   C01_step_cfg (lcs := true) (nb := true) (scp := some b) f n op hf
 
-/-- **C01, full step theorem**: on the patched tree every operation maps a well-formed forest
-(beliefs agree with positions, node ids distinct and below the counter, list keys are the
-positions, dict / object keys distinct, no node object in two places) to a well-formed forest.
-Hypotheses: the call is a well-formed *encoding* (`wellKeyed`: a dict literal has distinct keys —
-Python cannot write anything else), and the model did not have to put one node object in two
-places during the call (the decidable mark `aliased`, reported by the driver after every step and
-never set in any run against the real code; with F79 unpatched `l.insert(0, l[0])` sets it, see
-`C01_counterexample_F79`). No admissibility hypothesis: a diverging call (F30) has no after-state
-(`stepA` leaves the forest alone). -/
+/-- **No aliasing**: from a well-formed forest, no call on a tree with the belief fixes ever has
+to put one node object in two places (the model's mark `aliased` stays false). The only way to
+set the mark is to offer an existing non-root node that already believes to be at the
+destination; in a well-formed forest that node *is* the occupant of the destination slot, and
+every write primitive catches that case first: the identity test `old_value is value`
+(replacement, dict store), the copy of an own element (insertion, F79), the absence of an
+occupant (append), "returned as it is" (first pass of a slice assignment). -/
+theorem C01_no_alias {lcs nb : Bool} {scp : Option Bool} (f : Forest) (n : Bool) (op : Op) (hf : f.wf = true)
+    (hk : wellKeyed op = true) : (stepA (Cfg.fixedWith lcs nb scp) f n op).forest.aliased = false :=
+  stepA_unal f n op hf hk
+
+/-- **C01, full step theorem**: on every tree with the belief fixes (in particular the patched
+tree) every operation maps a well-formed forest (beliefs agree with positions, node ids distinct
+and below the counter, list keys are the positions, dict / object keys distinct, no node object in
+two places, nothing in flight) to a well-formed forest. The only hypothesis besides `wf` is that
+the call is a well-formed *encoding* (`wellKeyed`: a dict literal has distinct keys — Python
+cannot write anything else). No admissibility hypothesis: a diverging call (F30) has no
+after-state (`stepA` leaves the forest alone). -/
 theorem C01_step_Full_cfg {lcs nb : Bool} {scp : Option Bool} (f : Forest) (n : Bool) (op : Op) (hf : f.wf = true)
-    (hk : wellKeyed op = true) (hal : (stepA (Cfg.fixedWith lcs nb scp) f n op).forest.aliased = false) :
-    (stepA (Cfg.fixedWith lcs nb scp) f n op).forest.wf = true := by
+    (hk : wellKeyed op = true) : (stepA (Cfg.fixedWith lcs nb scp) f n op).forest.wf = true := by
+  have hal := C01_no_alias (lcs := lcs) (nb := nb) (scp := scp) f n op hf hk
   rw [wf_iff] at hf ⊢
   exact ⟨C01_step_cfg f n op hf.1, stepA_inv _ f n op hf.2.1 hk hal, hal, stepA_pool _ f n op hf.2.2.2⟩
 
-theorem C01_step_Full (f : Forest) (n : Bool) (op : Op) (hf : f.wf = true) (hk : wellKeyed op = true)
-    (hal : (stepA Cfg.patched f n op).forest.aliased = false) :
+theorem C01_step_Full (f : Forest) (n : Bool) (op : Op) (hf : f.wf = true) (hk : wellKeyed op = true) :
     (stepA Cfg.patched f n op).forest.wf = true :=
-  C01_step_Full_cfg (lcs := true) (nb := true) (scp := none) f n op hf hk hal
+  C01_step_Full_cfg (lcs := true) (nb := true) (scp := none) f n op hf hk
 
 /-- the full invariant for a call inside `with pg.allow_partial(b):`. -/
-theorem C01_step_Full_scoped (b : Bool) (f : Forest) (n : Bool) (op : Op) (hf : f.wf = true) (hk : wellKeyed op = true)
-    (hal : (stepA { Cfg.patched with scopePartial := some b } f n op).forest.aliased = false) :
+theorem C01_step_Full_scoped (b : Bool) (f : Forest) (n : Bool) (op : Op) (hf : f.wf = true) (hk : wellKeyed op = true) :
     (stepA { Cfg.patched with scopePartial := some b } f n op).forest.wf = true :=
-  C01_step_Full_cfg (lcs := true) (nb := true) (scp := some b) f n op hf hk hal
+  C01_step_Full_cfg (lcs := true) (nb := true) (scp := some b) f n op hf hk
 
 /-- the representation half (ids distinct and bounded, key shapes) needs none of the fixes: it is
 preserved by every operation on *every* configuration of the tree — the defects F02 / F03 / F78 /
@@ -602,31 +609,26 @@ theorem C01_reachable (hist : List (Bool × Op)) : (runHist Cfg.patched Forest.e
   C01_history_final hist Forest.empty (by decide)
 
 theorem C01_history_Full_final (hist : List (Bool × Op)) : ∀ (f : Forest), f.wf = true →
-    (∀ s ∈ hist, wellKeyed s.2 = true) → (runHist Cfg.patched f hist).aliased = false →
-    (runHist Cfg.patched f hist).wf = true := by
+    (∀ s ∈ hist, wellKeyed s.2 = true) → (runHist Cfg.patched f hist).wf = true := by
   induction hist with
-  | nil => intro f hf _ _; exact hf
+  | nil => intro f hf _; exact hf
   | cons s rest ih =>
-    intro f hf hk hal
+    intro f hf hk
     obtain ⟨n, op⟩ := s
-    simp only [runHist] at hal ⊢
-    have hal1 := unal_of_rise (runHist_rise Cfg.patched rest _) hal
-    exact ih _ (C01_step_Full f n op hf (hk (n, op) (by simp)) hal1) (fun s hs => hk s (by simp [hs])) hal
+    simp only [runHist]
+    exact ih _ (C01_step_Full f n op hf (hk (n, op) (by simp))) (fun s hs => hk s (by simp [hs]))
 
-/-- **C01 over histories, full invariant**: if the state at the end of a history does not carry
-the mark `aliased` (the mark is never cleared), then *every* state on the way — every prefix —
-is well-formed, from every well-formed start. -/
+/-- **C01 over histories, full invariant**: every state on the way — every prefix of every
+history of (well-keyed) calls — is well-formed, from every well-formed start. -/
 theorem C01_history_Full (f : Forest) (hist : List (Bool × Op)) (hf : f.wf = true)
-    (hk : ∀ s ∈ hist, wellKeyed s.2 = true) (hal : (runHist Cfg.patched f hist).aliased = false) (k : Nat) :
+    (hk : ∀ s ∈ hist, wellKeyed s.2 = true) (k : Nat) :
     (runHist Cfg.patched f (hist.take k)).wf = true :=
   C01_history_Full_final (hist.take k) f hf (fun s hs => hk s (List.mem_of_mem_take hs))
-    (runHist_prefix_unal Cfg.patched f hist k hal)
 
 /-- … in particular everything a program can build from nothing. -/
-theorem C01_reachable_Full (hist : List (Bool × Op)) (hk : ∀ s ∈ hist, wellKeyed s.2 = true)
-    (hal : (runHist Cfg.patched Forest.empty hist).aliased = false) :
+theorem C01_reachable_Full (hist : List (Bool × Op)) (hk : ∀ s ∈ hist, wellKeyed s.2 = true) :
     (runHist Cfg.patched Forest.empty hist).wf = true :=
-  C01_history_Full_final hist Forest.empty (by decide) hk hal
+  C01_history_Full_final hist Forest.empty (by decide) hk
 
 /-- the empty forest is well-formed (base case). -/
 theorem C01_empty : Forest.empty.wf = true := by decide
